@@ -80,6 +80,14 @@ PROPS = {
                                 "gotMetadata's error is recovered from the torrent's log output"],
         assumptions=["SHA-1 of distinct generated metadata contents are distinct"],
     ),
+    "C15": dict(
+        level_text="Model/Tracker.v models the UDP retransmission loop and reply parsers, the HTTP reply decoder (on the shared bencode model) and the announce-timing state machine. Theorems: the retransmission loop never reaches panic for any 1-4 attempt outcomes (c15_udp_total); compact peer lists are read entry by entry in order (c15_peers_exact); an announce never leaves the tracker locked and Busy is reported only while locked (c15_not_stuck, c15_busy_only_if_locked); consecutive contacts are more than max(5 min, interval in force) apart, the interval in force being the announced one above a minute and at least 15 min otherwise (c15_spacing, c15_effective_interval, c15_interval_in_force, c15_no_contact_no_change). Tie: 600 (quick) scripted exchanges: udpRequestReply over a scripted connection, announceUDP against a loopback UDP server, announceHTTP and full HTTP.Announce histories with clock advances against a loopback HTTP server; results, peers learnt, intervals, contact counts and states compared with the model.",
+        level_note="net/http, net/url, the sockets and netip.ParseAddr are not modelled (dict-format peers are generated with dotted IPv4 or clearly invalid strings only); IPv6 UDP announces are not exercised (no udp6 loopback assumed); concurrent GetState during an announce is covered by the lock theorem only. Durations wrap as int64 in the model where the code multiplies.",
+        harness="tracker", args=["-prop", "C15"], check_module="TrackerCheck",
+        n_quick=600, n_thorough=20000,
+        trusted=COMMON_TRUST + ["verif hooks tracker/export_verif.go", "loopback UDP/HTTP servers of the harness"],
+        assumptions=["the clock is advanced by ageing the tracker's timestamp; real elapsed time during a case is negligible against the 10 s margins used"],
+    ),
 }
 
 # properties not claimed, each with a reason (kept current as checks are added)
